@@ -3,7 +3,7 @@
 # check(s) its meta.json says catch it (tools/mutcheck.sh: scratch copies, /repo and /verif untouched)
 # and write seeded/REGRESSION.txt: one line per (change, property) with the exit code seen.
 cd "$(dirname "$0")/.."
-OUT=seeded/REGRESSION.txt
+OUT=${OUT:-seeded/REGRESSION.txt}
 TMP=$(mktemp)
 IDS="$@"
 [ -z "$IDS" ] && IDS=$(ls seeded | grep -E '^(C[0-9]+b?|F[A-Z])-[0-9]+$')
